@@ -1269,6 +1269,18 @@ func (x *Exec) pureArgTerm(h map[string]Term, a Val) Term {
 	if a.T.Sort == SSlice && isByteSlice(a.Typ) {
 		return x.bytesOfIn(h, a.T)
 	}
+	if a.T.Sort == SRef && a.Typ != nil && os.Getenv("GVC_PURE_BY_REF") == "" {
+		// a pointer to a struct (generated getters, methods with pointer receivers): the function
+		// depends on what the object holds now, not on the object's identity -- a write to a field
+		// between two calls changes the result
+		if ptr, ok := a.Typ.Underlying().(*types.Pointer); ok {
+			if si := x.S.StructInfo(ptr.Elem()); si != nil && len(si.fields) > 0 {
+				if t, _, err := x.loadLV(h, &LVal{Kind: "obj", Root: a.T, RootT: ptr.Elem()}); err == nil {
+					return t
+				}
+			}
+		}
+	}
 	return a.T
 }
 
